@@ -30,7 +30,9 @@ def determinant(top_sensors, n_features, basis_matrix):
 
     for i in range(p):
         c[i, top_sensors[i]] = 1
-    phi = basis_matrix
+    # As floats: the products below overflow in a narrow integer dtype
+    # (e.g. an Identity basis of int8 / int32 pixel data).
+    phi = np.asarray(basis_matrix, dtype=float)
     theta = c @ phi
     if p == r:
         M_gamma = theta
